@@ -1684,6 +1684,9 @@ def declare_rules(ck):
             "followed through the template recursions and helpers down to the stores; a definition may be skipped only where the holder has no entities of a dimension d <= m "
             "(then it has no m-entities either), never depending on the count of a higher dimension: the holder of a mesh part is typed by the parent's shape, so a surface "
             "part of a 3D mesh has no cells but needs edges-at-face, and a full-dimensional part needs vertices-at-cell (the refined part otherwise no longer follows its parent entities)", min_instances=28)
+    ck.rule("E10.holder-established", "MeshPart::deduct_topology stores the deduced index sets into a holder that exists on every path: where the function's own null test of the "
+            "holder pointer finds it null, the holder is created before it is dereferenced (a part without a topology - what BoundaryFactory and the other part factories produce - "
+            "is exactly the case in which the test finds null)", min_instances=1)
     ck.rule("E10.no-orphan", "every fine entity of lower dimension created in the closure of the coarse cell is referenced by some fine cell", min_instances=83)
 
 
@@ -2673,6 +2676,7 @@ def check_topology_coverage(ck, facts):
             anchors.append((f, "member", 0))
     if not any(a[1] == "param" for a in anchors) or not any(a[1] == "member" for a in anchors):
         ck.incomplete(R, "anchor functions RedundantIndexSetBuilder::compute / MeshPart::deduct_topology not found")
+    holder_done = set()
     for f, how, fmin in sorted(anchors, key=lambda a: a[0].full):
         dim = norm_c10.shape_dim(f.cls)
         if dim is None:
@@ -2688,6 +2692,13 @@ def check_topology_coverage(ck, facts):
                 ck.incomplete(R, "%s::%s: the index set holder member is not identifiable (%s)" % (short(f.cls), f.name, members))
                 continue
             de.analyse(f, {}, members=tuple(members))
+            hkey = "%s::%s/%s" % (re.sub(r"<.*$", "", short(f.cls)), f.name, members[0])
+            if hkey not in holder_done:
+                holder_done.add(hkey)
+                bad = norm_c10.null_path_derefs(f, members[0])
+                ck.ob("E10.holder-established", hkey, not bad, ("line %s: `%s` dereferences %s on the path where the test at line %s found it null and nothing has created it since "
+                      "(a mesh part without a topology: null pointer dereference)" % (bad[0][0], bad[0][1], members[0], bad[0][2])) if bad
+                      else "%s is created or known to be non-null on every path to its dereferences" % members[0], f.file, bad[0][0] if bad else f.line)
         for m in range(1, dim + 1):
             for fd in range(fmin, m):
                 key = "%s::%s/<%d,%d>" % (short(f.cls)[:110], f.name, m, fd)
